@@ -128,7 +128,7 @@ namespace OP2Utility::XFile
 		return DirInternal(
 			directory,
 			[&filenameRegex](const std::string& filename) {
-				return std::regex_search(filename, filenameRegex);
+				return std::regex_search(GetFilename(filename), filenameRegex);
 			}
 		);
 	}
@@ -158,7 +158,7 @@ namespace OP2Utility::XFile
 		return DirInternal(
 			directory,
 			[&filenameRegex](const std::string& filename) {
-				return std::regex_search(filename, filenameRegex) && IsFile(filename);
+				return std::regex_search(GetFilename(filename), filenameRegex) && IsFile(filename);
 			}
 		);
 	}
